@@ -296,7 +296,7 @@ func init() {
 			return append([]*seqProp{p, d, widthSizePhase(p, []int{31, 32, 33, 63, 64, 65, 127, 128, 129}, 4, false)}, sizePhases(p, tier, 3, true)...)
 		}
 		return []*seqProp{p, miniDeep(p, `{"a":{"x":1},"k":[0]}`),
-			widthSizePhase(p, []int{0, 1, 2, 7, 8, 9, 15, 16, 17, 31, 32, 33, 63, 64, 65, 127, 128, 129}, 3, false), widthSizePhase(p, []int{255, 256, 257, 1024}, 2, false)}
+			widthSizePhase(p, []int{0, 1, 2, 7, 8, 9, 15, 16, 17, 31, 32, 33, 63, 64, 65, 127, 128, 129}, 3, false), widthSizePhase(p, []int{255, 256, 257, 1024}, 2, false), prefixNamesPhase(p)}
 	}, 240*time.Second, 25*time.Minute)
 
 	// C14 — EnsurePathExistsOnAdd
@@ -604,6 +604,7 @@ func init() {
 		runSizeSweep(ctx, "C06", false, tier, sizeWhat{equal: true})
 		runEqualEscapes(ctx, "C06")
 		runEqualLaws(ctx, "C06")
+		runEqualPadding(ctx, "C06")
 		runEqualMalformed(ctx, "C06", tier)
 	}, false)
 	registerMerge("C07", func(ctx *core.Ctx, tier string) {
@@ -629,6 +630,16 @@ func init() {
 		runCompose(ctx, "C07", false, narrow, so, append(narrow, so[:6]...))
 		runCompose(ctx, "C07", false, narrow, narrow, so)
 		runSizeSweep(ctx, "C07", false, tier, sizeWhat{compose: true})
+		// siblings one level down: every object over two names whose values are scalars, null, or small objects with
+		// and without a null, wrapped in a member - a nested level where one sibling's merge is a no-op (the same
+		// deletion in both patches) and the other's is a real change, in every map order
+		sibVals := parseAll([]string{`1`, `2`, `null`, `{"x":null}`, `{"x":1}`, `{"x":null,"y":1}`})
+		var sibs []*rj.Value
+		for _, o := range objectsOver([]string{"a", "b"}, sibVals) {
+			sibs = append(sibs, rj.NewObj(rj.Member{Name: "cfg", V: o}))
+		}
+		sibDocs := append(parseAll([]string{`{}`, `{"cfg":{"a":{"x":5,"y":6},"b":7,"c":8}}`, `{"cfg":{"a":1,"b":{"x":2}}}`, `{"cfg":null}`}), sibs[len(sibs)/2])
+		runCompose(ctx, "C07", false, sibDocs, sibs, sibs)
 	}, false)
 }
 
@@ -637,7 +648,7 @@ func init() {
 	registerMerge("C16", func(ctx *core.Ctx, tier string) {
 		ctx.Rep.Rule = "(1) scanx: BFS over the synchronous product of the real scanner and a reference pushdown recogniser, all 256 bytes from every reachable state, stacks to depth 4: end-of-input acceptance must agree in every state (language equality for every length); " +
 			"(2) bytex(a): every string over 33 byte-class representatives up to length L whose proper prefixes are viable (plus each with one killing byte): Valid/Compact/Indent/Unmarshal/UnmarshalWithKeys accept iff RFC 8259 does; every accepted string, also with leading/trailing whitespace, goes to every public entry point (must be accepted when of the right shape; value-preserving); " +
-			"(3) bytex(b): every string over 16 symbols up to length 4 (thorough 5) in every []byte parameter of the v5 entry points: ill-formed => error (Equal: false); (4) nesting 9999/10000/10001; (5) string literals of every length 0..130 and around 256/1024/4096 bytes, plain and with one control byte / quote / escape / bad UTF-8 at the start, middle, end - codec functions and entry points; (6) one caller buffer per size 16..70000 handed to each entry point holding a well-formed text, then overwritten in place with an ill-formed one of the same length, then the well-formed one again. states = scanner product states + distinct well-formed strings"
+			"(3) bytex(b): every string over 16 symbols up to length 4 (thorough 5) in every []byte parameter of the v5 entry points: ill-formed => error (Equal: false); (4) nesting 9999/10000/10001; (5) string literals of every length 0..130 and around 256/1024/4096 bytes, plain and with one control byte / quote / escape / bad UTF-8 at the start, middle, end - codec functions and entry points; (7) 760 number literals (sign, four integer parts, five fractions, 19 exponent spellings incl. leading zeros) at the root, in an array and as member values; (6) one caller buffer per size 16..70000 handed to each entry point holding a well-formed text, then overwritten in place with an ill-formed one of the same length, then the well-formed one again. states = scanner product states + distinct well-formed strings"
 		ctx.Phase("scanx", func() { runScanx(ctx, 4) })
 		n, ne, nb := 5, 4, 4
 		if tier == "thorough" {
@@ -646,6 +657,7 @@ func init() {
 		ctx.Phase("bytex_a", func() { runBytexA(ctx, "C16", n, ne) })
 		ctx.Phase("bytex_b", func() { runBytexB(ctx, "C16", nb, byteFlags{reject: true, accept: true, applyOK: true}) })
 		ctx.Phase("string_shapes", func() { runStringShapes(ctx, "C16", byteFlags{reject: true, accept: true, applyOK: true}) })
+		ctx.Phase("number_shapes", func() { runNumberShapes(ctx, "C16", byteFlags{reject: true, accept: true, applyOK: true}) })
 		ctx.Phase("buffer_reuse", func() { runBufferReuse(ctx, "C16") })
 		ctx.Phase("deep", func() { runDeep(ctx, "C16", tier, true, true) })
 	}, false)
